@@ -41,3 +41,53 @@ func ZZ_C13_UpdateCheckpoint() {
 		zzAssert(c.Checkpoint == "", "C13.checkpoint-kept-without-all-RF-RW")
 	}
 }
+
+// C13 (a volume snapshot is refused unless all RF replicas are RW when it is taken): a
+// replica fails - ping failure noticed by its monitor goroutine - while a snapshot
+// request is inside a call to a replica (the duplicate-name lookup, the snapshot
+// fan-out: network round trips, i.e. scheduling points).  Whatever the interleaving, a
+// snapshot reported as taken exists on all RF replicas.
+func ZZ_C13_SnapshotRace() {
+	rf := zzParam("RF", 3)
+	e := zzSymbolicEnv(rf)
+	zzAssume(e.n == rf && e.countMode(types.RW) == rf)
+	c := e.c
+	victim := zzAddrs[zzConcretize(zzChoice("victim", rf))]
+	at := zzConcretize(zzChoice("at-call", 4)) // which call into a replica the failure coincides with
+	calls := 0
+	zzmodel.OnCall = func() {
+		if calls == at {
+			e.f.remotes[victim].ZZInjectMonitorError(zzmodel.ErrIO)
+			zzYield()
+		}
+		calls++
+	}
+	name, err := c.Snapshot("s1")
+	zzmodel.OnCall = nil
+	zzSettle()
+	if err == nil {
+		zzReach("C13.race.taken")
+		for i := 0; i < rf; i++ {
+			m := zzmodel.Replicas[zzAddrs[i]]
+			has, asked := false, false
+			for _, s := range m.Snapshots {
+				if s == name {
+					has = true
+				}
+			}
+			for _, a := range m.Actions {
+				if a == "snapshot" {
+					asked = true
+				}
+			}
+			// taken on all RF replicas: each of them was asked; one that failed its own
+			// snapshot call is marked failed and detached (C05), the others hold it
+			zzAssert(asked, "C13.race.snapshot-taken-without-asking-all-RF-replicas")
+			zzAssert(has || !e.attached(zzAddrs[i]) || e.modeOf(zzAddrs[i]) == types.ERR, "C13.race.in-service-replica-without-the-snapshot")
+		}
+	} else {
+		zzReach("C13.race.refused")
+	}
+	e.zzCheckInvC("C13.race.settled", true, false)
+	zzReach("C13.race.done")
+}
